@@ -156,6 +156,44 @@ class C05(Spec):
                 ix = {'t': 'tup', 'v': its}
                 flat = False
             cases.append({'kind': 'index', 'shape': shape, 'flat': flat, 'idx': ix})
+        # histories: one indexer object, several set_src_shape calls (shaped-instance cache), try_slice, copy
+        nseq = 1500 if tier == 'quick' else 15000
+        for _ in range(nseq):
+            rank = rng.choice([1, 1, 2, 3])
+            flat = rng.random() < 0.3
+            form = rng.choice(['single', 'single', 'tup', 'ell'])
+            shapes = [[rng.randrange(2, 5) for _ in range(rank)] for _ in range(rng.randrange(2, 4))]
+            mins = [min(sh[k] for sh in shapes) for k in range(rank)]
+            def it(n):
+                k = rng.random()
+                if k < 0.5:
+                    vals = [None, None] + list(range(-n, n + 1))
+                    return slc(rng.choice(vals), rng.choice(vals), rng.choice([None, 1, -1, 2, -2]))
+                if k < 0.75:
+                    return {'t': 'int', 'v': rng.randrange(-n, n)}
+                return {'t': 'arr', 'v': [rng.randrange(-n, n) for _ in range(rng.randrange(1, 4))]}
+            if form == 'single' or flat:
+                n0 = mins[0]
+                if flat:
+                    n0 = 1
+                    for m in mins:
+                        n0 *= m
+                ix = it(n0)
+            elif form == 'tup':
+                ix = {'t': 'tup', 'v': [it(mins[k]) for k in range(rng.randrange(1, rank + 1))]}
+            else:
+                L = rng.randrange(0, rank + 1)
+                npre = rng.randrange(0, L + 1)
+                its = [it(mins[k] if k < npre else mins[rank - (L - k)]) for k in range(L)]
+                ix = {'t': 'ell', 'pre': its[:npre], 'post': its[npre:]}
+            c = {'kind': 'seq', 'shapes': shapes, 'flat': flat, 'idx': ix}
+            if ix['t'] == 'arr' and rng.random() < 0.5:
+                c['try_slice'] = True
+            if in_model_grammar(ix) and not c.get('try_slice'):
+                cases.append(c)
+            else:
+                c['model'] = False
+                cases.append(c)
         # array2slice: all integer arrays of length <= 4 over [-2, 5] (quick) / <= 5 over [-2, 6]
         L, hi = (4, 5) if tier == 'quick' else (5, 6)
         for k in range(0, L + 1):
@@ -170,13 +208,24 @@ class C05(Spec):
     def search_gen(self, tier, rng):
         return self.gen(tier, rng)[:20000]
 
+    def compare_case(self, c, res):
+        if c['kind'] == 'seq' and c.get('model') is False:
+            return False
+        return res.get('res', '__none__') != '__none__'
+
     def got_term(self, c):
         if c['kind'] == 'a2s':
             return '(v_oslice (array2slice %s))' % zlist(c['arr'])
+        if c['kind'] == 'seq':
+            fl, ix = boollit(c['flat']), idx_term(c['idx'])
+            return '(VL [%s])' % '; '.join('v_pair (om_index %s %s %s)' % (zlist(sh), fl, ix) for sh in c['shapes'])
         sh, fl, ix = zlist(c['shape']), boollit(c['flat']), idx_term(c['idx'])
         return '(VL [v_pair (om_index %s %s %s); v_pair (np_index_flat %s %s %s)])' % (sh, fl, ix, sh, fl, ix)
 
     def shrink(self, c):
+        if c['kind'] == 'seq' and len(c['shapes']) > 2:
+            for k in range(len(c['shapes'])):
+                yield dict(c, shapes=c['shapes'][:k] + c['shapes'][k + 1:])
         if c['kind'] != 'index':
             return
         ix = c['idx']
